@@ -1,0 +1,91 @@
+//go:build verif
+
+// Contracts for package iputil, checked by /verif/govc. Compiled only with
+// -tags verif.
+
+package iputil
+
+// ---- contract vocabulary (evaluated symbolically by govc) ----
+
+func old[T any](x T) T                  { return x }
+func implies(a, b bool) bool            { return !a || b }
+func forall[T any](f func(T) bool) bool { return true }
+func elems[T any](s []T, r ...int) bool { return true }
+
+// =====================================================================
+// C20 — IPv6 extension header walk (independent specification)
+// =====================================================================
+//
+// SpecIPv6Walk is written from RFC 8200 §4, not from the code: starting at
+// header type nh located at offset off, skip hop-by-hop (0), routing (43) and
+// destination (60) headers of (len+1)*8 bytes, AH (51) of (len+2)*4 bytes and
+// first-fragment headers (44) of 8 bytes; a non-first fragment stops the walk
+// and reports the fragmented protocol; anything else is the upper-layer
+// protocol, acceptable only if its offset is inside the packet. fuel is the
+// number of extension headers that may still be skipped: running out of fuel
+// on an extension header means the chain could not be resolved (Ok=false).
+
+type SpecWalk struct {
+	Proto uint8
+	Off   int
+	Frag  bool
+	Any   bool
+	Ok    bool
+}
+
+//@ func SpecIsExt
+//@   pure
+//@ func SpecIPv6Walk
+//@   recursive
+//@ func SpecIPv6Find
+//@   pure
+
+func SpecIsExt(nh uint8) bool {
+	return nh == 0 || nh == 43 || nh == 44 || nh == 51 || nh == 60
+}
+
+func SpecIPv6Walk(d []byte, nh uint8, off int, anyFrag bool, fuel int) SpecWalk {
+	if !SpecIsExt(nh) {
+		return SpecWalk{Proto: nh, Off: off, Frag: false, Any: anyFrag, Ok: off <= len(d)}
+	}
+	if fuel == 0 {
+		return SpecWalk{Ok: false}
+	}
+	need := 2 // next-header and length bytes
+	if nh == 44 {
+		need = 8 // the fragment header has a fixed size
+	}
+	if len(d) < off+need {
+		return SpecWalk{Ok: false}
+	}
+	if nh == 44 && (uint16(d[off+2])<<8|uint16(d[off+3]))>>3 != 0 {
+		return SpecWalk{Proto: d[off], Off: off, Frag: true, Any: true, Ok: true}
+	}
+	step := (int(d[off+1]) + 1) * 8 // hop-by-hop, routing, destination options
+	if nh == 44 {
+		step = 8
+	} else if nh == 51 {
+		step = (int(d[off+1]) + 2) * 4 // AH counts 32-bit words minus 2
+	}
+	return SpecIPv6Walk(d, d[off], off+step, anyFrag || nh == 44, fuel-1)
+}
+
+// SpecIPv6Find: the walk over a whole packet (fixed header 40 bytes, next
+// header at byte 6), with a budget of 8 extension headers.
+func SpecIPv6Find(d []byte) SpecWalk {
+	if len(d) < 40 {
+		return SpecWalk{Ok: false}
+	}
+	return SpecIPv6Walk(d, d[6], 40, false, 8)
+}
+
+//@ func IPv6FindUpperProtocol
+//@   props C20
+//@   loop 1 unroll 9
+//@   loop 1 invariant[walk] len(packet) >= 40 && !isFragment && 40 <= offset && offset <= 40+2048*loopiter && SpecIPv6Find(packet) == SpecIPv6Walk(packet, nextHeader, offset, anyFragment, 8-loopiter)
+//@   ensures[accept]   (err == nil) == SpecIPv6Find(packet).Ok
+//@   ensures[proto]    implies(err == nil, nextHeader == SpecIPv6Find(packet).Proto && offset == SpecIPv6Find(packet).Off)
+//@   ensures[frag]     implies(err == nil, isFragment == SpecIPv6Find(packet).Frag && anyFragment == SpecIPv6Find(packet).Any)
+//@   ensures[terminal] implies(err == nil && !isFragment, !SpecIsExt(nextHeader) && 40 <= offset && offset <= len(packet))
+//@   ensures[fragoff]  implies(err == nil && isFragment, anyFragment && 40 <= offset && offset+8 <= len(packet))
+//@   assigns nothing
